@@ -13,7 +13,7 @@
    untouched / independent / varied_invalid / valid_is_parent_copy are defined in the model file
    next to `reach` and `varied`. *)
 From Coq Require Import List ZArith Bool.
-From DV Require Import Model.C02_Variation Proofs.C02_Variation.
+From DV Require Import Model.C02_Variation Proofs.C02_Variation Proofs.C02_Progress.
 Import ListNotations.
 
 (* ---------------------------------------------------------------- varAnd *)
@@ -132,6 +132,38 @@ Theorem C02_varOr_empty_population_raises :
   ltb u cxpb = false -> pop = [] -> res = inl IndexError /\ hp s' = h0.
 Proof. exact or_empty_population_raises. Qed.
 Print Assumptions C02_varOr_empty_population_raises.
+
+(* ---------------------------------------------------------------- for EVERY operator in the frame *)
+(* without the hypothesis that mate returns two different objects: parents are still untouched and
+   the count is still right (the other three clauses genuinely need it: if mate returns the same
+   object twice, varAnd's result contains it twice) *)
+Theorem C02_varAnd_untouched_and_count_any_operator :
+  forall G F T ltb mate_o mut_o h0 pop, wf_heap h0 -> pop_ok h0 pop ->
+  forall cxpb mutpb d s' res,
+  @var_and G F T ltb mate_o mut_o cxpb mutpb (start h0 d) pop = (s', res) ->
+  untouched h0 pop (hp s') /\ forall off, res = inr off -> length off = length pop.
+Proof. exact and_weak. Qed.
+Print Assumptions C02_varAnd_untouched_and_count_any_operator.
+
+(* ---------------------------------------------------------------- progress: when the calls return *)
+(* varAnd never raises: it consumes exactly len//2 + len values of random.random() *)
+Theorem C02_varAnd_total :
+  forall G F T ltb mate_o mut_o cxpb mutpb h0 pop us rest,
+  length us = Nat.div2 (length pop) + length pop ->
+  exists s' off, @var_and G F T ltb mate_o mut_o cxpb mutpb (start h0 (map DRandom us ++ rest)) pop = (s', inr off)
+                 /\ dr s' = rest.
+Proof. exact and_total. Qed.
+Print Assumptions C02_varAnd_total.
+
+(* varOr returns whenever the assertion holds and the population has two members at every crossover
+   draw and one at every other draw (or_draws_ok); with the guards above this is exactly when *)
+Theorem C02_varOr_total :
+  forall G F T ltb mate_o mut_o leb add one lambda_ cxpb mutpb h0 pop d,
+  leb (add cxpb mutpb) one = true ->
+  or_draws_ok ltb cxpb (length pop) (Z.to_nat lambda_) d ->
+  exists s' off, @var_or G F T ltb leb add one mate_o mut_o lambda_ cxpb mutpb (start h0 d) pop = (s', inr off).
+Proof. exact or_total. Qed.
+Print Assumptions C02_varOr_total.
 
 (* ---------------------------------------------------------------- non-vacuity *)
 (* a concrete run meeting every hypothesis: two parents (the second unevaluated), an in-place mate
